@@ -34,6 +34,7 @@ Definition dec_sop (code a1 a2 a3 a4 : N) : option sop :=
          else Some (OReadFromFd a1 a2 a3 (negb (a4 =? 0)))
   | 7 => Some (ORead a1 a2) | 8 => Some (OReadSlice a1 a2) | 9 => Some (OLoad a1 a2)
   | 10 => Some (OCopyTo a1 a2) | 11 => Some (OWriteTo a1 a2) | 12 => Some (OWriteAllTo a1 a2)
+  | 19 => if a4 <? 2 then Some (OWriteToFd a1 a2 (negb (a4 =? 0))) else None
   | 13 => Some ORefStore | 14 => Some ORefLoad
   | 15 => Some (OArrStore a1) | 16 => Some (OArrLoad a1) | 17 => Some (OArrCopyFrom a1) | 18 => Some (OArrCopyTo a1)
   | _ => None end.
